@@ -75,3 +75,20 @@ Theorem C08_map_refuted_witness :
                        ∧ read_or (or_apply a2 op3) 0 = Some [9] ∧ or_merge p2 a2 ≠ or_apply p2 op2.
 Proof. exact map_T2_resurrection_refuted. Qed.
 Print Assumptions C08_map_refuted_witness.
+
+From Crdt Require Import model.Map spec.System spec.OrswotSpec spec.OrswotSystem spec.MapSpec spec.MapSystem proofs.OrswotSystem proofs.MapKeys.
+
+(** Map, key level: per-actor delivery (pending removes, also inside merged states) yields
+    exactly the key set, contexts and pending-remove table that the knowledge set determines *)
+Theorem C08_map_keys_per_actor {V O E} (vo : valops V O E) (H : list (oprec (mop O))) :
+  owfH (habs H) ->
+  forall (s1 s2 : cmap V) (K : gset nat), mapreach vo H s1 K -> mapreach vo H s2 K ->
+    mclock s1 = mclock s2
+    /\ dom (mentries s1) = dom (mentries s2)
+    /\ (forall k : N, rm_clock (mget s1 k) = rm_clock (mget s2 k))
+    /\ (forall k : N, add_clock (mget s1 k) = add_clock (mget s2 k))
+    /\ mread_ctx s1 = mread_ctx s2
+    /\ rval (mlen s1) = rval (mlen s2)
+    /\ rval (mis_empty s1) = rval (mis_empty s2) /\ mdeferred s1 = mdeferred s2.
+Proof. exact (map_keys_converge_reads vo H). Qed.
+Print Assumptions C08_map_keys_per_actor.
